@@ -317,6 +317,10 @@ PROPS["C10"] = _serve("C10", {
     "tmp_of": "staging names are private to (process, request): no two writers share one",
 }, r"\(C10", ["kill points: the crash argument is 'every prefix of the effect log keeps the invariant' - effects on live paths are renames only (atomic); this is implied by the preconditions but the prefix quantifier itself is not a Verus obligation", "kernel-level durability"],
     ["tmp_of", "handle_put", "handle_get"], {"handle_put": _NOT_C10})
+PROPS["C10"]["twins"].append(dict(name="serve_crashes", repo_fn="src/bin/copia/serve.rs handle_put/handle_delete (kill points)", quick=3, thorough=120, needs_cli=True, only_re=r"\(C10|\(C03",
+    contract="one real `copia serve` fed a whole session from a file and killed right before EVERY one of its file-system write calls (ptrace supervisor), four sessions (multi-chunk Put committing over an existing file, Put creating a nested path, stale Put landing a conflict copy, Delete then Put): every hub path other than staging names holds what the hub had or the complete verified content of the one write in flight; a reply already sent is true of the tree; a fresh server serves exactly the tree and accepts a correct CAS Put",
+    bounded="C10's crash quantifier ('if any of them is killed at any point') is decided deductively only as 'every effect on a live path is an atomic rename of a verified staging file' (preconditions of the world primitives); the statement over ALL kill points of a run is a statement about log prefixes that is not a Verus obligation. Bound: 4 sessions, every kill point (11 + 10 + 8 + 10 on the pinned tree), single server, process kill (not power loss)"))
+PROPS["C10"]["fallback_searches"] = ["serve", "serve_crash"]
 PROPS["C11"] = _serve("C11", {
     "safe_join": "None <=> the path is absolute or has a .., root or prefix component; Some(p) ==> p == root.join(rel) and inside(root, p)",
     "handle_put / handle_delete / handle_get": "every path handed to any file-system primitive is inside(root, .) (precondition of every vfs_* shim); a refused path leaves files and effect log unchanged; a refused Put drains min(len, available) content bytes",
